@@ -867,6 +867,13 @@ class Evaluator:
                         # method of the dataset: opaque
                         rid = self._read("attr", None, attr + "()", e)
                         p.add(rid)
+                    elif attr == "hash" and any(
+                            a.kind == "ds" for a in list(args) + list(
+                                kwargs.values())):
+                        # <recipe>.hash(dataset): digest of another recipe's
+                        # ingredients for this dataset
+                        rid = self._read("attr", None, "hash()", e)
+                        p.add(rid)
                     if not st3.diag_depth and recv.kind not in (
                             "const", "unknown", "notnone", "list", "tuple",
                             "dict"):
